@@ -13,7 +13,7 @@ for p in mutants/*.patch; do
 	run /verif/$p $id
 done
 for d in seeded/*/; do
-	id=$(python3 -c "import json,sys; print(json.load(open('$d/meta.json'))['property'])")
+	id=$(python3 -c "import json,sys; m=json.load(open('$d/meta.json')); print(m.get('check', m['property']))")
 	if grep -q '"caught_by": "NOT CAUGHT' $d/meta.json; then echo "SKIPPED $id  $d (recorded as outside the property)"; continue; fi
 	run /verif/${d}patch.diff $id
 done
